@@ -108,7 +108,7 @@ def discharge_one(item):
     if item.get("ground"):
         # first attempt on the quantifier-free weakening (fewer assumptions: a proof there is a proof of the obligation);
         # it keeps the ground obligations away from the quantified background axioms, where z3 tends to wander
-        rg = discharge_smt2(item["name"], item["kind"], item["line"], item["ground"], timeout_ms=2000, use_cvc5=False, seed=seed)
+        rg = discharge_smt2(item["name"], item["kind"], item["line"], item["ground"], timeout_ms=2000, use_cvc5=False, seed=seed, retries=0)
         if rg.status == "proved":
             rg.backend = "z3 (quantifier-free weakening)"
             r = rg
